@@ -39,6 +39,8 @@ __attribute__((constructor(65000))) static void vs_preload_init(void) {
     }
   }
   const char *h = getenv("VS_HORIZON");
+  const char *ul = getenv("VS_UNLOCK_POINTS");
+  if (ul && *ul == '1') vs_set_unlock_points(1);
   // children of this process (none expected) must not inherit the control channel
   unsetenv("VS_SHM");
   unsetenv("LD_PRELOAD");
